@@ -4,21 +4,43 @@ import random
 
 
 def rand_history(rnd: random.Random, max_classes=8, max_rules=14, max_shift=3):
+    """shifts: per history a global cap S, per rule its own magnitude (so that a rule with a new
+    largest shift can arrive late), three sign modes"""
     n = rnd.randint(1, max_classes)
-    S = rnd.choice([1, 1, 2, 3][: max(1, max_shift + 1)]) if max_shift >= 1 else 0
-    S = min(S, max_shift)
+    S = rnd.randint(1, max(1, max_shift)) if max_shift >= 1 else 0
     rules = []
     for _ in range(rnd.randint(1, max_rules)):
         k = rnd.choice([0, 1, 1, 2, 2, 3])
         cs = tuple(rnd.randrange(n) for _ in range(k))
+        s_r = rnd.randint(0, S)
         mode = rnd.random()
-        if mode < 0.25:
+        if mode < 0.2:
             ss = tuple(0 for _ in range(k))
-        elif mode < 0.5:
-            ss = tuple(rnd.randint(0, S) for _ in range(k))
+        elif mode < 0.55:
+            ss = tuple(rnd.randint(0, s_r) for _ in range(k))
         else:
-            ss = tuple(rnd.randint(-S, S) for _ in range(k))
+            ss = tuple(rnd.randint(-s_r, s_r) for _ in range(k))
         rules.append((rnd.randrange(n), cs, ss))
+    return n, rules
+
+
+def layered_history(rnd: random.Random, max_classes=6, max_rules=10, max_shift=4):
+    """mostly acyclic universes with positive shifts: classes take finite positive values, so the
+    gap window (its size, its position, rules held above it) is exercised; a few back edges."""
+    n = rnd.randint(2, max_classes)
+    rules = []
+    for _ in range(rnd.randint(2, max_rules)):
+        p = rnd.randrange(n)
+        k = rnd.choice([1, 1, 1, 2, 2, 0])
+        cs = []
+        for _ in range(k):
+            if rnd.random() < 0.8 and p + 1 < n:
+                cs.append(rnd.randrange(p + 1, n))
+            else:
+                cs.append(rnd.randrange(n))
+        ss = tuple(rnd.choice([0, 1, 1, 1, 2, 2, 3, max_shift, -1]) for _ in cs)
+        rules.append((p, tuple(cs), ss))
+    rnd.shuffle(rules)
     return n, rules
 
 
